@@ -7,3 +7,4 @@ pub mod collections {
   pub mod hash_set { pub use crate::kcoll::HashSet; }
 }
 pub mod kcoll;
+pub mod kvec;
